@@ -367,6 +367,8 @@ func ZZ_C14_Layout(sv *zzsv.T) {
 func ZZ_C14_Terminates(sv *zzsv.T) {
 	n := sv.Choice("len", sv.Param("term.maxlen", 2, 3)+1)
 	src := sv.String("b", n)
+	// (a single NextToken that never returns is a failure too, not a bound)
+	sv.MustTerminate("C14.terminates.each_token", 5)
 	_, ok := zzLex(src, n+2)
 	sv.Observe("terminated", ok)
 	sv.Assert("C14.terminates", ok)
